@@ -10,7 +10,7 @@ TStep ==
   /\ l <= Len(Traces[t])
   /\ l' = l + 1 /\ t' = t
   /\ \/ void /\ UNCHANGED cvars            \* outside the environment assumption: nothing is judged any more
-     \/ ~void /\ Ev.ev = "cfg" /\ Cfg(Ev.ncb)
+     \/ ~void /\ Ev.ev = "cfg" /\ Cfg(Ev.ncb, Ev.nsens)
      \/ ~void /\ Ev.ev = "hsend" /\ HostSend(Ev.g, Ev.t)
      \/ ~void /\ Ev.ev = "unsolicited" /\ Unsolicited
      \/ ~void /\ Ev.ev = "call" /\ Call(Ev.i, Ev.kind, Ev.gids, Ev.delays, Ev.t, Ev.faulty, Ev.exp)
@@ -26,7 +26,7 @@ TStep ==
      \/ ~void /\ Ev.ev = "callback" /\ Callback(Ev.name)
      \/ ~void /\ Ev.ev = "identfail" /\ IdentFail
      \/ ~void /\ Ev.ev = "udisc" /\ UserDisc
-     \/ ~void /\ Ev.ev = "end" /\ EndOK(Ev.connected, Ev.unfinished)
+     \/ ~void /\ Ev.ev = "end" /\ EndOK(Ev.connected, Ev.unfinished, Ev.mustheal)
      \/ ~void /\ Ev.ev = "end" /\ Ev.trickle /\ Dev_NeverReturns(Ev.unfinished)
 TSpec == TInit /\ [][TStep]_<<cvars, t, l>>
 Track == TLCSet(t, IF l > TLCGet(t) THEN l ELSE TLCGet(t))
